@@ -363,6 +363,10 @@ def _report_check(chk, tier, pid):
         recs = [r for r in vlib.read_ndjson(tpath) if r["k"] == "same"]
         vlib.write_ndjson(tpath, recs)
     trace_validate(chk, "TV_Report", tpath, describe, env={"MODE": pid}, timeout=3000)
+    if pid == "C13":
+        r = vlib.tlc("MC_DirWalk", "MC_DirWalk.quick.cfg", workers=8, timeout=1800, tag="C13")
+        chk.add_tlc(r)
+        _pipeline(chk, tier, pid, r.records.get("REPLAY", []))
     chk.exhaustive = True
 
 
@@ -415,6 +419,8 @@ def _dir_check(chk, tier, pid):
     if len(beh) < 1000:
         raise ToolError("MC_DirWalk generated only %d trees" % len(beh))
     if tier == "thorough":
+        # more names, two directory names, five pattern selections: model checking only (1.6 M states)
+        chk.add_tlc(vlib.tlc("MC_DirWalk", "MC_DirWalk.wide.cfg", workers=12, timeout=3000, xmx="12g", tag=pid))
         neg = vlib.tlc("MC_DirWalk", "MC_DirWalk.neg.cfg", workers=4, timeout=900, expect_violation=True)
         if neg.violated != "UnionHolds":
             raise ToolError("negative control OverwriteOnReturn did not violate UnionHolds")
@@ -444,8 +450,38 @@ def _dir_check(chk, tier, pid):
                     rec["cat"], rec["pats"], json.dumps(rec["tree"])[:500], json.dumps(rec["result"])[:300],
                     json.dumps(rec["res"])[:300], why))
     trace_validate(chk, "TV_DirWalk", tpath, describe, timeout=3000)
+    if pid == "C03":
+        _pipeline(chk, tier, pid, beh)
     chk.exhaustive = True
     return recs
+
+
+def _pipeline(chk, tier, pid, beh):
+    """Binary level: the report of a tree is the union of the single-file reports (C03) and does not depend on
+    listing order, configured pattern order or process (C13)."""
+    import pipeline
+    hb = vlib.build_harness("dev")
+    sb = vlib.build_solstat_bin()
+    d = wdir(pid)
+    cat = bindrive.extract_catalogue()
+    trees = [b["tree"] for b in beh if len(pipeline.eligible_files(b["tree"])) >= 2]
+    want = 60 if tier == "quick" else 500
+    if len(trees) > want:
+        step = len(trees) // want
+        trees = trees[vlib.seed() % step::step][:want]
+    recs = pipeline.run_trees(chk, hb, sb, trees, cat, d)
+    if not recs:
+        raise ToolError("no pipeline runs")
+    ppath = os.path.join(d, "trace-pipeline.ndjson")
+    vlib.write_ndjson(ppath, recs)
+    chk.evaluations += len(recs)
+    chk.nontrivial += sum(1 for x in recs if x["listing_differs"])
+    chk.extra["pipeline_trees"] = len(recs)
+    chk.extra["pipeline_trees_listed_in_two_orders"] = sum(1 for x in recs if x["listing_differs"])
+
+    def describe(rec, why):
+        return ("pipeline:%s" % why, "solstat on tree %s: %s" % (json.dumps(rec["tree"])[:400], why))
+    trace_validate(chk, "TV_Pipeline", ppath, describe, timeout=3000)
 
 
 @prop("C03")
